@@ -164,7 +164,7 @@ def _mk_sources(spec):
     import emg3d
     out = []
     for s in spec['sources']:
-        k, c, st = s['kind'], s['coo'], s['strength']
+        k, c, st = s['kind'], s['coo'], s['strength'] * spec.get('amp_scale', 1.0)
         if k == 'edip_point':
             out.append(emg3d.TxElectricDipole(tuple(c), strength=st, length=1.0))
         elif k == 'edip_finite':
@@ -245,6 +245,12 @@ def set_noise(spec, survey, amp):
         survey.standard_deviation = amp * npr.uniform(0.03, 0.2, survey.shape) + floor
     elif mode == 'nf_only':
         survey.noise_floor = floor * npr.uniform(0.5, 2.0, (ns, nr, nf))
+    elif mode == 'std_ones':                       # plain unweighted least squares
+        survey.standard_deviation = np.ones(survey.shape)
+    elif mode == 'std_huge':
+        survey.standard_deviation = np.full(survey.shape, 2.0**20)
+    elif mode == 'std_decades':                    # weights spanning many decades within one survey
+        survey.standard_deviation = 2.0 ** npr.choice([-30, -10, 0, 10, 20, 30], survey.shape)
     else:
         survey.relative_error = 0.07
 
@@ -328,12 +334,34 @@ def add_observed(spec, rng):
     return spec
 
 
+SCALE_CLASSES = {
+    # name: (amp_scale of the source strengths, noise mode or None = keep)
+    'unit_std': (1.0, 'std_ones'),
+    'unit_std_tiny_amp': (2.0**-20, 'std_ones'),    # data ~1e-15: weighted residuals << 1e-8
+    'huge_std': (1.0, 'std_huge'),
+    'tiny_amp_relative': (2.0**-17, None),          # realistic ~1e-13 amplitudes, relative noise
+    'huge_amp_unit_std': (2.0**20, 'std_ones'),
+    'decades': (1.0, 'std_decades'),
+}
+
+
+def apply_scale_class(spec, name):
+    """Set the data/weight scale class of a spec (before add_observed)."""
+    amp, mode = SCALE_CLASSES[name]
+    spec['amp_scale'] = amp
+    if mode is not None:
+        spec['noise_mode'] = mode
+    spec['scale_class'] = name
+    return spec
+
+
 def brief(spec):
     return {'shape': [len(spec['hx']), len(spec['hy']), len(spec['hz'])],
             'mapping': spec['mapping'], 'aniso': CASES[spec['aniso']],
             'sources': [s['kind'] for s in spec['sources']],
             'receivers': [r['kind'] + ('-rel' if r['relative'] else '') for r in spec['receivers']],
             'freqs': spec['freqs'], 'noise': spec['noise_mode'],
+            'scale': spec.get('scale_class', 'default'),
             'nan': sum(z is None for b in (spec['obs'] or []) for r in b for z in r)}
 
 
